@@ -157,6 +157,14 @@ pub(crate) fn salsa_update_rec<const ROUNDS: usize>(c: &mut Salsa<ROUNDS>) {
     c.offset = 0;
 }
 #[cfg(kani)]
+pub(crate) fn salsa_pm_rec<const ROUNDS: usize>(_c: &mut Salsa<ROUNDS>, data: &mut [u8]) {
+    crate::chacha20::verif_ctx::pm_note(data)
+}
+#[cfg(kani)]
+pub(crate) fn xsalsa_pm_rec<const ROUNDS: usize>(_c: &mut XSalsa<ROUNDS>, data: &mut [u8]) {
+    crate::chacha20::verif_ctx::pm_note(data)
+}
+#[cfg(kani)]
 pub(crate) fn xsalsa_update_rec<const ROUNDS: usize>(c: &mut XSalsa<ROUNDS>) {
     let (w, blk) = crate::chacha20::verif_ctx::upd_common(spec_advance, c.state.state);
     c.state.state = w;
@@ -325,14 +333,14 @@ pub(crate) fn c04_xsalsa_process_mut_step() {
     case_process_mut_step::<XSalsa<2>, 136>(1);
 }
 #[cfg_attr(kani, kani::proof)]
-#[cfg_attr(kani, kani::unwind(66))]
-#[doc = "verif-unwindset: ::process_mut$=5, xor_keystream_mut=5"]
+#[cfg_attr(kani, kani::unwind(10))]
+#[cfg_attr(kani, kani::stub(Salsa::process_mut, salsa_pm_rec))]
 pub(crate) fn c04_salsa_process_eq() {
     case_process_eq::<Salsa<2>>();
 }
 #[cfg_attr(kani, kani::proof)]
-#[cfg_attr(kani, kani::unwind(66))]
-#[doc = "verif-unwindset: ::process_mut$=5, xor_keystream_mut=5"]
+#[cfg_attr(kani, kani::unwind(10))]
+#[cfg_attr(kani, kani::stub(XSalsa::process_mut, xsalsa_pm_rec))]
 pub(crate) fn c04_xsalsa_process_eq() {
     case_process_eq::<XSalsa<2>>();
 }
